@@ -1125,3 +1125,47 @@ B('c15-raw-color-rgb-as-logical', 'C15', 'R15.e', MACHINE,
   "        if self._reg.unit_mode is UnitMode.RGB:\n            return units.logical_to_raw(color)")
 N('c15-plus-one-left', 'C15', MACHINE,
   "                start_index, end_index + 1,", "                start_index, 1 + end_index,")
+
+# ------------------------------------------------------------------ C16
+B('c16-percent-not-token', 'C16', 'R16.a', LEX,
+  r"    _NON_ALNUM_SPEC = r'==|<=|>=|[\[\]\(\){}+\-*<>/%#:\^]'", r"    _NON_ALNUM_SPEC = r'==|<=|>=|[\[\]\(\){}+\-*<>/#:\^]'")
+B('c16-percent-not-mark', 'C16', 'R16.a', LEX,
+  "    _NON_ALNUM_LIST = r'[]{}()+-*/%#:^'", "    _NON_ALNUM_LIST = r'[]{}()+-*/#:^'")
+B('c16-cmp-order', 'C16', 'R16.a', LEX,
+  "    _CMP_SPEC = r'==|<=|>=|!=|[<>]'", "    _CMP_SPEC = r'[<>]|==|<=|>=|!='")
+B('c16-default-first', 'C16', 'R16.a', LEX,
+  """        _NAME_SPEC,
+        _NON_ALNUM_SPEC,
+        _DEFAULT_SPEC))""",
+  """        _NAME_SPEC,
+        _DEFAULT_SPEC,
+        _NON_ALNUM_SPEC))""")
+B('c16-abbrev-extra', 'C16', 'R16.c', LEX,
+  "            'H': 'hue', 'S': 'saturation', 'B': 'brightness', 'K': 'kelvin'",
+  "            'H': 'hue', 'S': 'saturation', 'B': 'brightness', 'K': 'kelvin', 'R': 'red'")
+B('c16-abbrev-wrong', 'C16', 'R16.c', LEX,
+  "            'H': 'hue', 'S': 'saturation', 'B': 'brightness', 'K': 'kelvin'",
+  "            'H': 'hue', 'S': 'saturation', 'B': 'blue', 'K': 'kelvin'")
+B('c16-name-no-underscore', 'C16', 'R16.d', LEX,
+  "    _NAME_SPEC = r'[a-zA-Z_][a-zA-Z0-9_]*'", "    _NAME_SPEC = r'[a-zA-Z][a-zA-Z0-9_]*'")
+B('c16-name-no-digits', 'C16', 'R16.d', LEX,
+  "    _NAME_SPEC = r'[a-zA-Z_][a-zA-Z0-9_]*'", "    _NAME_SPEC = r'[a-zA-Z_][a-zA-Z_]*'")
+B('c16-string-after-punct', 'C16', 'R16.d', LEX,
+  """        _CMP_SPEC,
+        _LITERAL_STRING_SPEC,
+        _NUMBER_SPEC,
+        _NAME_SPEC,
+        _NON_ALNUM_SPEC,""",
+  """        _CMP_SPEC,
+        _NUMBER_SPEC,
+        _NON_ALNUM_SPEC,
+        _LITERAL_STRING_SPEC,
+        _NAME_SPEC,""")
+B('c16-comment-substring', 'C16', 'R16.d', LEX,
+  "                if u_matched == '#':\n                    break", "                if '#' in u_matched:\n                    break")
+B('c16-rvalue-no-bracket', 'C16', 'R16.e', PARSE,
+  "        if self._current_token.content == '[':\n            return self._rvalue_fn_call(dest, code_gen)\n", "")
+N('c16-name-spec-equivalent', 'C16', LEX,
+  "    _NAME_SPEC = r'[a-zA-Z_][a-zA-Z0-9_]*'", "    _NAME_SPEC = r'[_A-Za-z][0-9A-Z_a-z]*'")
+N('c16-punct-reordered', 'C16', LEX,
+  r"    _NON_ALNUM_SPEC = r'==|<=|>=|[\[\]\(\){}+\-*<>/%#:\^]'", r"    _NON_ALNUM_SPEC = r'==|<=|>=|[%\[\]\(\){}+\-*<>/#:\^]'")
